@@ -100,7 +100,7 @@ CHECKS = {
          "DESIGN.md section 3, C18"),
  "C19": ("exploration",
          "bounded exhaustive enumeration of generated and constant-rich programs x {serde_json, bincode} x bindings, differential between the original and the round-tripped program",
-         "13k/0.3M programs: the C10 program set (every ByteCode variant, nested code blocks for calls, macros and f-strings) plus 428 constant-rich programs (every serialisable value variant with boundary payloads - int/uint extremes, +-0.0, +-inf, NaN, subnormals, strings with quotes/NUL/non-BMP, all 256 bytes, nested lists/maps, types, timestamps and durations at millisecond resolution incl. negative and extreme - and every error constant the folder produces, each alone and inside a list, a map, a comparison, a macro, a ternary, a coalesce) in both formats: serialization and deserialization succeed, source and parameter set equal, a second round trip has the same bytes, and both programs give the same value or the same error kind under 5 bindings (1, 'a', true, 0, unbound), a program with a map constant being read back 8 times from the same bytes (folded maps of 2 and 12 keys under filter/map bodies that fail differently per key included). Complete for this program set only.",
+         "13k/0.3M programs: the C10 program set (every ByteCode variant, nested code blocks for calls, macros and f-strings) plus 428 constant-rich programs (every serialisable value variant with boundary payloads - int/uint extremes, +-0.0, +-inf, NaN, subnormals, strings with quotes/NUL/non-BMP, all 256 bytes, nested lists/maps, types, timestamps and durations at millisecond resolution incl. negative and extreme - and every error constant the folder produces, each alone and inside a list, a map, a comparison, a macro, a ternary, a coalesce) in both formats: serialization and deserialization succeed, source and parameter set equal, a second round trip has the same bytes, and both programs give the same value or the same error kind under 5 bindings (1, 'a', true, 0, unbound), a program with a map constant being read back 8 times from the same bytes (folded maps of 2 and 12 keys under filter/map bodies that fail differently per key included); every alternation of two of 9 nesting constructs at every depth the parser accepts. Complete for this program set only.",
          "Sub-millisecond time constants are outside the statement. For programs reading the clock only the outcome class is compared. The Python/WASM entry points are not built; they call the same serde implementations.",
          "DESIGN.md section 3, C19"),
  "C20": ("exploration",
